@@ -34,6 +34,9 @@ func profiles() map[string]world.Profile {
 	dispatch := map[string]int{"AddFact": 22, "RemFact": 6, "AddRule": 18, "RemRule": 5, "ProcessEvent": 40, "EnableRule": 4, "SetParents": 3}
 	index := map[string]int{"AddRule": 30, "RemRule": 14, "AddFact": 5, "RemFact": 3, "EnableRule": 4, "Clear": 3,
 		"ProcessEvent": 45, "SearchRules": 5, "Reload": 2}
+	system := map[string]int{"CreateLocation": 6, "AddFact": 20, "RemFact": 8, "GetFact": 8, "SearchFacts": 12, "AddRule": 12,
+		"RemRule": 6, "GetRule": 3, "EnableRule": 6, "SetParents": 5, "GetParents": 2, "Clear": 2, "StateSize": 3,
+		"ListRules": 4, "SearchRules": 3, "ProcessEvent": 14}
 	ids := []string{"f1", "f2", "f3"}
 	return map[string]world.Profile{
 		"facts":    {Name: "facts", Len: 40, Locs: []string{"A"}, Ids: ids, MaxFacts: 1000, Weights: facts},
@@ -45,6 +48,7 @@ func profiles() map[string]world.Profile {
 		"lifecycle": {Name: "lifecycle", Len: 45, Locs: []string{"A", "B"}, Ids: []string{"r1", "r2"}, Rules: true, Parents: true, MaxFacts: 1000, Weights: lifecycle},
 		"dispatch": {Name: "dispatch", Len: 40, Locs: []string{"A", "B"}, Ids: []string{"r1", "r2", "r3", "f1", "f2"}, Rules: true, Dispatch: true, Parents: true, MaxFacts: 1000, Weights: dispatch},
 		"index":    {Name: "index", Len: 50, Locs: []string{"A"}, Ids: []string{"r1", "r2", "r3", "r4"}, Rules: true, Index: true, MaxFacts: 1000, Weights: index},
+		"system":   {Name: "system", Len: 50, Locs: []string{"A", "B", "C"}, Ids: []string{"f1", "f2", "r1", "r2"}, Rules: true, Parents: true, Cascade: true, MaxFacts: 1000, Weights: system},
 		"parents":  {Name: "parents", Len: 45, Locs: []string{"A", "B", "C"}, Ids: []string{"f1", "f2", "r1", "r2"}, Rules: true, Parents: true, MaxFacts: 1000, Weights: parents},
 	}
 }
@@ -60,6 +64,9 @@ func main() {
 		out    = flag.String("out", "trace.ndjson", "output file")
 		par    = flag.Int("par", 8, "traces run concurrently")
 		mixed  = flag.Bool("mixed-events", false, "events may hold arrays of mixed scalar types")
+		via    = flag.String("via", "", "\"\" (core.Location) | system (sys.System)")
+		ttl    = flag.String("ttl", "all", "location cache TTL for -via system: never|1ms|forever|all (rotate)")
+		check  = flag.String("check", "both", "existence checking for -via system: on|off|both (rotate)")
 	)
 	flag.Parse()
 	p, ok := profiles()[*prof]
@@ -93,7 +100,15 @@ func main() {
 					ctx.Verbosity = core.NOTHING
 					ms, _ := core.NewMemStorage(ctx)
 					_ = store
-					w, err := world.NewWorld(world.Config{State: st, Store: "mem", MaxFacts: p.MaxFacts, Locs: p.Locs}, rec, ms)
+					cfg := world.Config{State: st, Store: "mem", MaxFacts: p.MaxFacts, Locs: p.Locs, Via: *via}
+					if *via == "system" {
+						cfg.Sys.TTL = *ttl
+						if *ttl == "all" {
+							cfg.Sys.TTL = []string{"never", "1ms", "forever"}[i%3]
+						}
+						cfg.Sys.CheckExistence = *check == "on" || (*check == "both" && (i/3)%2 == 0)
+					}
+					w, err := world.NewWorld(cfg, rec, ms)
 					if err != nil {
 						fmt.Fprintln(os.Stderr, "world:", err)
 						os.Exit(2)
